@@ -172,7 +172,17 @@ func loadedGlobal(v ssa.Value) *ssa.Global {
 
 func isNilConst(v ssa.Value) bool {
 	c, ok := v.(*ssa.Const)
-	return ok && c.IsNil()
+	if !ok {
+		return false
+	}
+	if c.IsNil() {
+		return true
+	}
+	// nil of unsafe.Pointer (a basic type) is not covered by Const.IsNil
+	if b, isB := c.Type().Underlying().(*types.Basic); isB && b.Kind() == types.UnsafePointer && c.Value == nil {
+		return true
+	}
+	return false
 }
 
 func constInt(v ssa.Value) (int64, bool) {
